@@ -265,14 +265,10 @@ pub fn do_walk(t: &Tables, ts: &[&str]) -> String {
     };
     let mut fi = String::new();
     if vw != verdict { fi.push_str(&format!(" # FOLLOWERDEP writer={}", vw)) }
-    format!(
-        "{} # EV {} # W {} # P {}{}",
-        verdict,
-        join_sp(&events.iter().map(|e| e.s()).collect::<Vec<_>>()),
-        wtext,
-        proto_s(&events),
-        fi
-    )
+    let evs = join_sp(&events.iter().map(|e| e.s()).collect::<Vec<_>>());
+    // EVR: the events of a successful traversal (compared with the recursive model walkRec)
+    let evr = if verdict == "ok" { evs.clone() } else { "none".to_string() };
+    format!("{} # EV {} # W {} # P {} # EVR {}{}", verdict, evs, wtext, proto_s(&events), evr, fi)
 }
 
 pub fn do_pool(t: &Tables, ts: &[&str]) -> String {
